@@ -381,6 +381,13 @@ func genSampling(r *hx.Rng, n int) []string {
 		}
 		out = append(out, fmt.Sprintf("C10|chb|%s|%d|?big", s, 16+r.Intn(240)))
 	}
+	// ExpandMask (Algorithm 34) around the counter values where mu+i crosses a multiple of 256
+	for _, s := range []string{"44", "65", "87"} {
+		for _, mu := range []int{0, 1, 250, 251, 252, 253, 254, 255, 256, 257, 505, 508, 510, 511, 512, 763, 1020, 65533, 65535} {
+			out = append(out, fmt.Sprintf("C10|xm|%s|%s|%d|?mu%d", s, hx.H(r.Bytes(64)), mu, mu))
+		}
+		out = append(out, fmt.Sprintf("C10|xm|%s|%s|%d|?rnd", s, hx.H(r.Bytes(64)), r.Intn(3000)))
+	}
 	for i := 0; len(out) < n; i++ {
 		p := setOf([]string{"44", "65", "87"}[i%3])
 		switch i % 3 {
